@@ -1169,7 +1169,13 @@ func (ctx *internalContext) Dispose() {
 	// Only dispose once
 	ctx.mutex.Lock()
 	if ctx.didDispose {
+		// If another "Dispose" call is still waiting for a build to finish, wait
+		// for that build here too so that no "Dispose" call returns early
+		build := ctx.activeBuild
 		ctx.mutex.Unlock()
+		if build != nil {
+			build.waitGroup.Wait()
+		}
 		return
 	}
 	ctx.didDispose = true
